@@ -352,6 +352,8 @@ register(PropertySpec(
              "filters that compute the variables identifying a row keep plain variables and one-to-many mappings"),
         Rule("RULE-ON-ENTER", _lazy("ruletree", "rule_rule_on_enter"), 2,
              "a query is flagged as a rule both when it is written inside a rule block and when a rule block is opened on it"),
+        Rule("ALT-LEFT-TRUTH", _lazy("ruletree", "rule_alt_left_truth"), 1,
+             "when the branches before an alternative yield no row at all, their truth flag is set to false before the alternative's rows are handed on"),
     ],
     explanation="Attaching a branch rewires the condition tree in place; evaluation follows the left/right fields, not "
                 "the graph edges, so a selector that is attached in the graph but not stored in its parent's operand slot "
